@@ -816,6 +816,22 @@ func (env *Env) call(x *ast.CallExpr) (tv, error) {
 			return tv{}, err
 		}
 		return tv{t: store(m.t, k.t, v.t), typ: m.typ}, nil
+	case "callarg":
+		// callarg(i): the i-th argument (receiver not counted) of the call a site assertion is attached before
+		ci, ok := env.siteInstr.(ssa.CallInstruction)
+		lit, isLit := x.Args[0].(*ast.BasicLit)
+		if !ok || env.frame == nil || !isLit {
+			return tv{}, env.errf(x, "callarg(i) needs a literal index and a call site")
+		}
+		i, _ := strconv.Atoi(lit.Value)
+		c := ci.Common()
+		if !c.IsInvoke() && c.Signature().Recv() != nil {
+			i++
+		}
+		if i < 0 || i >= len(c.Args) {
+			return tv{}, env.errf(x, "the call has no argument %s", lit.Value)
+		}
+		return tv{t: env.frame.val(c.Args[i]), typ: c.Args[i].Type()}, nil
 	case "old":
 		e2 := env.with(env.old)
 		e2.siteBlock = nil // parameter names denote their entry values inside old(...)
